@@ -185,6 +185,28 @@ def run(ctx):
         ctx.ob('C22-CROSS.loader-cannot-return-without-the-session-check', f, tests[0].stmt if tests else f.node, ok,
                '' if ok else '%s can return normally without comparing the object\'s session with the current thread\'s (%s): an object of another thread\'s session is '
                'accepted and its session state is changed from this thread' % (qual, g.fmt_path(pth) if pth else 'no check'), node=tests[0].stmt if tests else None)
+    # ---------------------------------------------------------------- PUBLISH
+    # a translator becomes visible to every thread the moment it is stored in the shared Database._translator_cache: it must be complete by then.  After a
+    # store `<db>._translator_cache[...] = t` no statement of the same function assigns an attribute of t
+    npub = 0
+    for fn in repo.rule_funcs():
+        if fn.mod.name != CORE: continue
+        g = None
+        for st in walk_no_nested(fn.node):
+            if not (isinstance(st, ast.Assign) and len(st.targets) == 1 and isinstance(st.targets[0], ast.Subscript) and (dotted(st.targets[0].value) or '').endswith('._translator_cache')
+                    and isinstance(st.value, ast.Name)): continue
+            g = g or cg.cfg(fn)
+            store = [x for x in g.nodes if x.kind == 'stmt' and x.ast is st]
+            if not store: continue
+            npub += 1
+            tname = st.value.id
+            after = g.reach(store, include_src=False)
+            late = [x for x in g.nodes if x.id in after and x.kind == 'stmt' and isinstance(x.ast, (ast.Assign, ast.AugAssign))
+                    and any(isinstance(t, ast.Attribute) and dotted(t.value) == tname for t in (x.ast.targets if isinstance(x.ast, ast.Assign) else [x.ast.target]))]
+            ctx.ob('C22-PUBLISH.translator-is-complete-before-it-is-shared', fn, st, not late,
+                   '' if not late else 'the translator is stored in the shared cache at line %d and `%s` is assigned afterwards (line %d): another thread that takes it from the cache in '
+                   'between sees a half-initialised object (AttributeError)' % (st.lineno, norm(late[0].ast)[:60], late[0].lineno), node=st)
+    ctx.floor('C22-PUBLISH', npub, 2, 'stores of a translator into the shared cache')
 
 
 MUTANTS = [
